@@ -6,6 +6,7 @@
 extern wchar_t *g_arena;         /* single arena object: both operands live in it        */
 extern size_t g_asz, g_doff, g_soff, g_ssz;   /* in wide characters                       */
 extern size_t gk, gj;            /* arbitrary (universally generalisable) indices        */
+extern wchar_t gsrc_k, gsrc_j;   /* snapshots of the source at gk / gj before the call    */
 extern int g_hcalls;
 extern int g_herr;
 #endif
